@@ -6,8 +6,10 @@ import Operon.Model.Tmpl
   env <extraWordCps> <extraSpaceCps> <markerPre> <markerSuf> (<set>=<filterName>,…)*
   ctx (<name>=<kind><truthy>,<text>[,L<item>;<item>…])*  item = <kind><text>[/<key>~<value>]*
   fenv (<set>:<filter>:<var>:o:<result> | <set>:<filter>:<var>:r:<class>)*
-  new <id> <strict> <set>
-  tmpl <id> <name> <sequence>
+  new <id> <strict> <set> (<key>:<mrnaName>:<sequence>)*     (constructor templates= mapping: the KEY registers)
+  tmpl <id> <name> <sequence>                               (create_template)
+  reg <id> <name|-> <mrnaName|-> <sequence>                 (register_template(t, name=…): name, else the mRNA's own)
+  put <id> <key> <mrnaName|-> <sequence>                    (instance.templates[key] = t)
   render <id> <sequence>             (synthesize on that instance)
   translate <id> <name>
 -/
@@ -168,6 +170,10 @@ def renderAll (st : DSt) (inst : Inst) (top : Str) : String :=
     else showRes rs
   obs ++ " ## " ++ joinSp tags
 
+/-- dict assignment: an existing key keeps its slot -/
+def putKey (ts : List (Str × Str)) (k v : Str) : List (Str × Str) :=
+  if ts.any (fun p => p.1 == k) then ts.map (fun p => if p.1 = k then (k, v) else p) else ts ++ [(k, v)]
+
 def getInst (st : DSt) (id : String) : Option Inst := (st.insts.find? (fun p => p.1 == id)).map (·.2)
 
 def setInst (st : DSt) (id : String) (i : Inst) : DSt :=
@@ -181,19 +187,31 @@ def step (st : DSt) (toks : List String) : DSt × String :=
                fsets := fs.filterMap parseSet }, "ok")
   | "ctx" :: es => ({ st with ctx := es.filterMap parseEntry, fenv := [] }, "ok")
   | "fenv" :: es => ({ st with fenv := es.filterMap parseF }, "ok")
-  | ["new", id, strict, fset] =>
-    if st.fsets.any (fun p => p.1 == fset) then (setInst st id { strict := boolOf strict, fset := fset }, "ok")
+  | "new" :: id :: strict :: fset :: ents =>
+    if st.fsets.any (fun p => p.1 == fset) then
+      let reg := ents.foldl (fun acc e =>
+        match e.splitOn ":" with
+        | [k, _, sq] => putKey acc (decodeCps k) (decodeCps sq)
+        | _ => acc) []
+      (setInst st id { strict := boolOf strict, fset := fset, templates := reg }, "ok")
     else (st, "bad-op")
+  | ["reg", id, n, mn, s] =>
+    match getInst st id with
+    | none => (st, "bad-op")
+    | some i =>
+      let key := if decodeCps n = [] then decodeCps mn else decodeCps n
+      if key = [] then (st, "raise:ValueError")
+      else (setInst st id { i with templates := putKey i.templates key (decodeCps s) }, "ok")
+  | ["put", id, k, _, s] =>
+    match getInst st id with
+    | none => (st, "bad-op")
+    | some i => (setInst st id { i with templates := putKey i.templates (decodeCps k) (decodeCps s) }, "ok")
   | ["tmpl", id, n, s] =>
     match getInst st id with
     | none => (st, "bad-op")
     | some i =>
-      let name := decodeCps n
-      -- dict assignment: an existing name keeps its slot
-      let ts := if i.templates.any (fun p => p.1 == name)
-        then i.templates.map (fun p => if p.1 = name then (name, decodeCps s) else p)
-        else i.templates ++ [(name, decodeCps s)]
-      (setInst st id { i with templates := ts }, "ok")
+      if decodeCps n = [] then (st, "raise:ValueError")
+      else (setInst st id { i with templates := putKey i.templates (decodeCps n) (decodeCps s) }, "ok")
   | ["render", id, s] =>
     match getInst st id with
     | none => (st, "bad-op")
